@@ -319,8 +319,10 @@ def check(ctx):
         ctx.check(not back and ax is not None and const_num(ax) == 0, poll, dels[0], f"{rows} = delete({rows}, {idx}, axis=0) on every path back to the loop header", "an evaluated direction can survive in the candidate set (delete bypassed or not along axis 0)", construct="delete of polled row bypass")
     # counter
     cnt = None
+    from .common import deref_expr as _dx14
+
     for c, pol in conjuncts(lp.test, True):
-        nf = int_le_form(c, neg=not pol)
+        nf = int_le_form(_dx14(prog, poll, c), neg=not pol)  # the bound 2*D kept in a local
         if nf and nf[0] == "<=":
             form, const = dict(nf[1][0]), nf[1][1]
             if "self.D" in form and len(form) == 2:
